@@ -207,3 +207,133 @@ theorem foldStep_unlimited : ∀ (rows acc : List VA),
     simp [List.reverse_cons, List.append_assoc]
 
 end Logica.Udf
+
+set_option linter.unusedSimpArgs false
+namespace Logica.Udf
+open Logica.OrderLimit
+
+/-- the last `k` elements -/
+def lastK {α : Type} (k : Nat) (l : List α) : List α := l.drop (l.length - k)
+
+section generic
+variable {α : Type} {le : α → α → Bool}
+
+theorem lastK_of_le (k : Nat) (l : List α) (h : l.length ≤ k) : lastK k l = l := by
+  unfold lastK
+  have : l.length - k = 0 := by omega
+  simp [this]
+
+theorem lastK_cons_of_ge (k : Nat) (a : α) (l : List α) (h : k ≤ l.length) : lastK k (a :: l) = lastK k l := by
+  unfold lastK
+  have : (a :: l).length - k = (l.length - k) + 1 := by simp; omega
+  rw [this]; rfl
+
+theorem length_lastK (k : Nat) (l : List α) : (lastK k l).length = min k l.length := by
+  unfold lastK; simp; omega
+
+theorem mem_lastK (k : Nat) (l : List α) (y : α) (h : y ∈ lastK k l) : y ∈ l := List.mem_of_mem_drop h
+
+/-- dual of `take_insertRow_take`: inserting into the last `k` rows of a sorted list and keeping the last `k` -/
+theorem lastK_insertRow_lastK (htrans : ∀ a b c, le a b = true → le b c = true → le a c = true)
+    (x : α) (k : Nat) : ∀ (l : List α), l.Pairwise (fun a b => le a b = true) →
+    lastK k (insertRow le x (lastK k l)) = lastK k (insertRow le x l) := by
+  intro l
+  induction l with
+  | nil => intro _; simp [lastK]
+  | cons a l ih =>
+    intro hs
+    by_cases hk : (a :: l).length ≤ k
+    · rw [lastK_of_le k _ hk]
+    · have hkl : k ≤ l.length := by simp at hk; omega
+      have hs' := (List.pairwise_cons.mp hs).2
+      have ha := (List.pairwise_cons.mp hs).1
+      rw [lastK_cons_of_ge k a l hkl]
+      by_cases hxa : le x a = true
+      · -- x goes in front of everything
+        have hr : insertRow le x (a :: l) = x :: a :: l := by simp [insertRow, hxa]
+        rw [hr, lastK_cons_of_ge k x (a :: l) (by simp; omega), lastK_cons_of_ge k a l hkl]
+        cases hlk : lastK k l with
+        | nil => 
+          have : k = 0 := by
+            have := length_lastK k l; rw [hlk] at this; simp at this; omega
+          subst this
+          simp [insertRow, lastK]
+        | cons y0 rest =>
+          have hy0 : y0 ∈ l := mem_lastK k l y0 (by rw [hlk]; simp)
+          have hxy : le x y0 = true := htrans x a y0 hxa (ha y0 hy0)
+          have hl : (y0 :: rest).length = k := by
+            have := length_lastK k l; rw [hlk] at this; omega
+          simp only [insertRow, hxy, if_true]
+          rw [lastK_cons_of_ge k x (y0 :: rest) (by omega), lastK_of_le k _ (by omega)]
+      · have hr : insertRow le x (a :: l) = a :: insertRow le x l := by simp [insertRow, hxa]
+        rw [hr, lastK_cons_of_ge k a _ (by rw [length_insertRow]; omega)]
+        exact ih hs'
+end generic
+
+/-- one step on a sorted buffer of at most `k` rows, no value tie with the new row -/
+theorem argMaxStep_eq (k : Nat) (hk : 1 ≤ k) (b : List VA) (x : VA)
+    (hl : b.length ≤ k) (hv : ∀ y ∈ b, y.1 ≠ x.1) :
+    argMaxStep (some (k : Int)) b x = .ok (lastK k (insertRow leVA x b)) := by
+  unfold argMaxStep
+  have h0 : ¬ ((k : Int) ≤ 0) := by omega
+  simp only [h0, if_false]
+  by_cases hlt : b.length < k
+  · have : ((b.length : Int) < (k : Int)) := by omega
+    simp only [this, if_true]
+    rw [lastK_of_le]
+    rw [length_insertRow]; omega
+  · have heq : b.length = k := by omega
+    have h1 : ¬ ((b.length : Int) < (k : Int)) := by omega
+    have h2 : ((b.length : Int) = (k : Int)) := by omega
+    simp only [h1, h2, if_false, if_true]
+    cases b with
+    | nil => simp at heq; omega
+    | cons m rest =>
+      simp only
+      have hm := hv m (by simp)
+      have hrl : rest.length + 1 = k := by simpa using heq
+      by_cases hlt' : m.1 < x.1
+      · simp only [hlt', if_true]
+        have hxm : leVA x m = false := by simp [leVA]; omega
+        have : insertRow leVA x (m :: rest) = m :: insertRow leVA x rest := by simp [insertRow, hxm]
+        rw [this, lastK_cons_of_ge k m _ (by rw [length_insertRow]; omega), lastK_of_le k _ (by rw [length_insertRow]; omega)]
+        have hkk : ¬ ((k : Int) < (k : Int)) := by omega
+        simp [hkk]
+      · simp only [hlt', if_false]
+        have hxm : leVA x m = true := by simp [leVA]; omega
+        have : insertRow leVA x (m :: rest) = x :: m :: rest := by simp [insertRow, hxm]
+        rw [this, lastK_cons_of_ge k x _ (by simp; omega), lastK_of_le k _ (by simp; omega)]
+        have hkk : ¬ ((k : Int) < (k : Int)) := by omega
+        simp [hkk]
+
+theorem foldStep_argMax (k : Nat) (hk : 1 ≤ k) : ∀ (rows acc : List VA),
+    ((acc ++ rows).map (·.1)).Nodup →
+    foldStep (argMaxStep (some (k : Int))) (lastK k (sortRows leVA acc)) rows
+      = .ok (lastK k (sortRows leVA (rows.reverse ++ acc))) := by
+  intro rows
+  induction rows with
+  | nil => intro acc _; simp [foldStep]
+  | cons x xs ih =>
+    intro acc hnd
+    have hstep : argMaxStep (some (k : Int)) (lastK k (sortRows leVA acc)) x
+        = .ok (lastK k (sortRows leVA (x :: acc))) := by
+      rw [argMaxStep_eq k hk _ x (by rw [length_lastK]; omega)]
+      · rw [lastK_insertRow_lastK leVA_trans x k _ (pairwise_sortRows leVA_trans leVA_total acc)]; rfl
+      · intro y hy
+        have hy' : y ∈ acc := (sortRows_perm (le := leVA) acc).subset (mem_lastK k _ y hy)
+        intro e
+        rw [List.map_append, List.map_cons] at hnd
+        have := (List.nodup_append.mp hnd).2.2 y.1 (List.mem_map_of_mem hy') x.1 (by simp)
+        exact this e
+    simp only [foldStep, hstep]
+    have := ih (x :: acc) (by
+      have : (acc ++ x :: xs) = ((acc ++ [x]) ++ xs) := by simp
+      rw [this] at hnd
+      have hp : ((acc ++ [x]) ++ xs).Perm ((x :: acc) ++ xs) := by
+        apply List.Perm.append_right
+        exact List.perm_append_singleton x acc
+      exact (hp.map _).nodup_iff.mp hnd)
+    rw [this]
+    simp [List.reverse_cons, List.append_assoc]
+
+end Logica.Udf
